@@ -17,7 +17,8 @@ def UsageInt64 (u : RecUsage) : Prop := int64 u.rg ∧ ∀ c ∈ u.cs, ContInt64
 /-- every integer of the record fits the Go type that holds it (int64 / *int64 members of cdrType.ChargingRecord) -/
 def RecInt64 (e : RecEnv) (r : Record) : Prop :=
   int64 e.functionality ∧ int64 r.cid ∧ int64 (r.lsn : Int) ∧ int64 (r.cause : Int) ∧
-  (∀ n, r.rsn = some n → int64 (n : Int)) ∧ ∀ u ∈ r.usage, UsageInt64 u
+  (∀ n, r.rsn = some n → int64 (n : Int)) ∧ (∀ u ∈ r.usage, UsageInt64 u) ∧
+  (∀ d, e.pdu = some d → int64 d.chargingId ∧ int64 d.sessionId ∧ int64 d.sst)
 
 theorem canon_int64 {i : Int} (h : int64 i) : Canon (.int 64) (.int i) := .int h (by simp [truncInt])
 
@@ -51,90 +52,88 @@ theorem canon_usages (us : List RecUsage) (h : ∀ u ∈ us, UsageInt64 u) :
 
 theorem canon_nat {n : Nat} (h : int64 (n : Int)) : Canon (.int 64) (.int n) := canon_int64 h
 
+/-- builds a `CanonFields` derivation member by member; leaves the `Canon` obligations of the members that are present -/
+macro "canon_fields" : tactic =>
+  `(tactic| repeat' (first | exact CanonFields.nil | refine CanonFields.absent rfl ?_ | refine CanonFields.present ?_ ?_))
+
+theorem ipTextVal_none (k : Int) : ipTextVal k none = .nil := rfl
+theorem fqdnVal_none : fqdnVal none = .nil := rfl
+theorem pduVal_none : pduVal none = .nil := rfl
+theorem regVal_none : regVal false = .nil := rfl
+
+theorem canon_ip3 (a : Bytes) : Canon (.ptr Gen.T_IPAddress) (ipTextVal 3 (some a)) :=
+  .ptr (.choice (v := .str a) (by decide) (.there (.there (.here (.ptr .str)))) rfl rfl)
+
+theorem canon_ip4 (a : Bytes) : Canon (.ptr Gen.T_IPAddress) (ipTextVal 4 (some a)) :=
+  .ptr (.choice (v := .str a) (by decide) (.there (.there (.there (.here (.ptr .str))))) rfl rfl)
+
+theorem canon_fqdn (a : Bytes) : Canon (.ptr Gen.T_NodeAddress) (fqdnVal (some a)) :=
+  .ptr (.choice (v := .str a) (by decide) (.there (.here (.ptr .str))) rfl rfl)
+
+theorem canon_nfi (e : RecEnv) (r : Record) (hf : int64 e.functionality) :
+    Canon Gen.T_NetworkFunctionInformation (nfiVal e r) := by
+  unfold Gen.T_NetworkFunctionInformation nfiVal
+  cases r.nf <;> cases hv4 : e.v4 <;> cases e.plmn <;> cases hv6 : e.v6 <;> cases hfq : e.fqdn <;>
+  · simp only [Vals.ofList, optStr, optBytes, ipTextVal_none, fqdnVal_none]
+    refine .struct ?_
+    canon_fields
+    all_goals first
+      | exact .wrap (.enum hf)
+      | exact .ptr (.wrap .str)
+      | exact .ptr (.wrap .octets)
+      | exact canon_ip3 _
+      | exact canon_ip4 _
+      | exact canon_fqdn _
+
+theorem canon_pdu (d : Pdu) (h : int64 d.chargingId ∧ int64 d.sessionId ∧ int64 d.sst) :
+    Canon (.ptr Gen.T_PDUSessionChargingInformation) (pduVal (some d)) := by
+  unfold Gen.T_PDUSessionChargingInformation pduVal
+  simp only [Vals.ofList, nils, List.cons_append, List.nil_append]
+  refine .ptr (.struct ?_)
+  canon_fields
+  · exact .wrap (canon_int64 h.1)
+  · exact .wrap (canon_int64 h.2.1)
+  · unfold Gen.T_SingleNSSAI
+    exact .ptr (.struct (.present (.wrap (canon_int64 h.2.2)) (.present (.ptr (.wrap .octets)) .nil)))
+  · exact .ptr (.wrap .str)
+
+theorem canon_reg : Canon (.ptr Gen.T_RegistrationChargingInformation) (regVal true) := by
+  unfold Gen.T_RegistrationChargingInformation regVal
+  simp only [if_true, Vals.ofList, nils, List.cons_append, List.nil_append]
+  refine .ptr (.struct ?_)
+  canon_fields
+  exact .wrap (.enum ⟨by decide, by decide⟩)
+
 theorem canon_record (e : RecEnv) (r : Record) (h : RecInt64 e r) : Canon Gen.T_CHFRecord (recordVal e r) := by
-  obtain ⟨hf, hcid, hlsn, hcause, hrsn, hus⟩ := h
+  obtain ⟨hf, hcid, hlsn, hcause, hrsn, hus, hpdu⟩ := h
   have hU := canon_usages r.usage hus
+  have hN := canon_nfi e r hf
   have h200 : int64 200 := ⟨by decide, by decide⟩
   have h1 : int64 1 := ⟨by decide, by decide⟩
   have h0 : int64 0 := ⟨by decide, by decide⟩
   unfold recordVal Gen.T_CHFRecord
   refine .choice (v := chargingRecordVal e r) (by decide) (.here (.ptr ?_)) rfl rfl
   unfold chargingRecordVal Gen.T_ChargingRecord
-  simp only [Vals.ofList, nils, List.cons_append, List.nil_append]
-  -- members 0..3
-  refine .struct (.present (.wrap (canon_int64 h200)) (.present (.wrap .str)
-    (.present (.ptr (.struct (.present (.wrap (.enum h1)) (.present .str .nil)))) (.present ?nfi (.absent rfl ?rest)))))
-  case nfi =>
-    unfold Gen.T_NetworkFunctionInformation
-    cases hn : r.nf with
-    | none => exact .struct (.present (.wrap (.enum hf)) (.absent rfl (.absent rfl (.absent rfl (.absent rfl (.absent rfl .nil))))))
-    | some b => exact .struct (.present (.wrap (.enum hf)) (.present (.ptr (.wrap .str)) (.absent rfl (.absent rfl (.absent rfl (.absent rfl .nil))))))
-  case rest =>
-    -- member 5 (usage list), then 6.. (opening time, duration, record sequence number, cause, …)
-    have tail : ∀ (v8 : Val), (v8 = .nil ∨ ∃ n : Nat, v8 = .int n ∧ int64 (n : Int)) → ∀ (v16 : Val), (v16 = .nil ∨ ∃ b, v16 = .bytes b) →
-        CanonFields
-          (.cons ⟨false, some 6, false, false, false, 0⟩ Gen.T_TimeStamp
-          (.cons ⟨false, some 7, false, false, false, 0⟩ Gen.T_CallDuration
-          (.cons ⟨true, some 8, false, false, false, 0⟩ (.ptr (.int 64))
-          (.cons ⟨false, some 9, false, false, false, 0⟩ Gen.T_CauseForRecClosing
-          (.cons ⟨true, some 10, false, false, false, 0⟩ (.ptr Gen.T_Diagnostics)
-          (.cons ⟨true, some 11, false, false, false, 0⟩ (.ptr Gen.T_LocalSequenceNumber)
-          (.cons ⟨true, some 12, false, false, false, 0⟩ (.ptr Gen.T_ManagementExtensions)
-          (.cons ⟨true, some 13, false, false, false, 0⟩ (.ptr Gen.T_PDUSessionChargingInformation)
-          (.cons ⟨true, some 14, false, false, false, 0⟩ (.ptr Gen.T_RoamingQBCInformation)
-          (.cons ⟨true, some 15, false, false, false, 0⟩ (.ptr Gen.T_SMSChargingInformation)
-          (.cons ⟨true, some 16, false, false, false, 0⟩ (.ptr Gen.T_ChargingSessionIdentifier)
-          (.cons ⟨true, some 17, false, false, false, 0⟩ (.ptr .octets)
-          (.cons ⟨true, some 18, false, false, false, 0⟩ (.ptr Gen.T_ExposureFunctionAPIInformation)
-          (.cons ⟨true, some 19, false, false, false, 0⟩ (.ptr Gen.T_RegistrationChargingInformation)
-          (.cons ⟨true, some 20, false, false, false, 0⟩ (.ptr Gen.T_N2ConnectionChargingInformation)
-          (.cons ⟨true, some 21, false, false, false, 0⟩ (.ptr Gen.T_LocationReportingChargingInformation)
-          (.cons ⟨true, some 22, false, false, false, 0⟩ (.ptr Gen.T_IncompleteCDRIndication)
-          (.cons ⟨true, some 23, false, false, false, 0⟩ (.ptr Gen.T_TenantIdentifier)
-          (.cons ⟨true, some 24, false, false, false, 0⟩ (.ptr Gen.T_MnSConsumerIdentifier)
-          (.cons ⟨true, some 25, false, false, false, 0⟩ (.ptr Gen.T_NSMChargingInformation)
-          (.cons ⟨true, some 26, false, false, false, 0⟩ (.ptr Gen.T_NSPAChargingInformation)
-          (.cons ⟨true, some 27, false, false, false, 0⟩ (.ptr Gen.T_ChargingID) .nil))))))))))))))))))))))
-          (.cons (.bytes e.openTime) (.cons (.int 0) (.cons v8 (.cons (.int r.cause) (.cons .nil (.cons (.int r.lsn)
-            (.cons .nil (.cons .nil (.cons .nil (.cons .nil (.cons v16 (.cons .nil (.cons .nil (.cons .nil (.cons .nil
-            (.cons .nil (.cons .nil (.cons .nil (.cons .nil (.cons .nil (.cons .nil (.cons (.int r.cid) .nil)))))))))))))))))))))) := by
-      intro v8 h8 v16 h16
-      have after16 : CanonFields
-          (.cons ⟨true, some 17, false, false, false, 0⟩ (.ptr .octets)
-          (.cons ⟨true, some 18, false, false, false, 0⟩ (.ptr Gen.T_ExposureFunctionAPIInformation)
-          (.cons ⟨true, some 19, false, false, false, 0⟩ (.ptr Gen.T_RegistrationChargingInformation)
-          (.cons ⟨true, some 20, false, false, false, 0⟩ (.ptr Gen.T_N2ConnectionChargingInformation)
-          (.cons ⟨true, some 21, false, false, false, 0⟩ (.ptr Gen.T_LocationReportingChargingInformation)
-          (.cons ⟨true, some 22, false, false, false, 0⟩ (.ptr Gen.T_IncompleteCDRIndication)
-          (.cons ⟨true, some 23, false, false, false, 0⟩ (.ptr Gen.T_TenantIdentifier)
-          (.cons ⟨true, some 24, false, false, false, 0⟩ (.ptr Gen.T_MnSConsumerIdentifier)
-          (.cons ⟨true, some 25, false, false, false, 0⟩ (.ptr Gen.T_NSMChargingInformation)
-          (.cons ⟨true, some 26, false, false, false, 0⟩ (.ptr Gen.T_NSPAChargingInformation)
-          (.cons ⟨true, some 27, false, false, false, 0⟩ (.ptr Gen.T_ChargingID) .nil)))))))))))
-          (.cons .nil (.cons .nil (.cons .nil (.cons .nil
-            (.cons .nil (.cons .nil (.cons .nil (.cons .nil (.cons .nil (.cons .nil (.cons (.int r.cid) .nil))))))))))) :=
-        .absent rfl (.absent rfl (.absent rfl (.absent rfl (.absent rfl (.absent rfl (.absent rfl (.absent rfl (.absent rfl
-          (.absent rfl (.present (.ptr (.wrap (canon_int64 hcid))) .nil))))))))))
-      rcases h16 with rfl | ⟨b, rfl⟩ <;> rcases h8 with rfl | ⟨n, rfl, hn⟩
-      · exact .present (.wrap .octets) (.present (.wrap (canon_int64 h0)) (.absent rfl (.present (.wrap (canon_nat hcause)) (.absent rfl (.present (.ptr (.wrap (canon_nat hlsn))) (.absent rfl (.absent rfl (.absent rfl (.absent rfl (.absent rfl after16))))))))))
-      · exact .present (.wrap .octets) (.present (.wrap (canon_int64 h0)) (.present (.ptr (canon_nat hn)) (.present (.wrap (canon_nat hcause)) (.absent rfl (.present (.ptr (.wrap (canon_nat hlsn))) (.absent rfl (.absent rfl (.absent rfl (.absent rfl (.absent rfl after16))))))))))
-      · exact .present (.wrap .octets) (.present (.wrap (canon_int64 h0)) (.absent rfl (.present (.wrap (canon_nat hcause)) (.absent rfl (.present (.ptr (.wrap (canon_nat hlsn))) (.absent rfl (.absent rfl (.absent rfl (.absent rfl (.present (.ptr (.wrap .octets)) after16))))))))))
-      · exact .present (.wrap .octets) (.present (.wrap (canon_int64 h0)) (.present (.ptr (canon_nat hn)) (.present (.wrap (canon_nat hcause)) (.absent rfl (.present (.ptr (.wrap (canon_nat hlsn))) (.absent rfl (.absent rfl (.absent rfl (.absent rfl (.present (.ptr (.wrap .octets)) after16))))))))))
-    have h8 : (match r.rsn with | some n => Val.int n | none => Val.nil) = .nil ∨
-        ∃ n : Nat, (match r.rsn with | some n => Val.int n | none => Val.nil) = .int n ∧ int64 (n : Int) := by
-      cases hr : r.rsn with
-      | none => exact Or.inl rfl
-      | some n => exact Or.inr ⟨n, rfl, hrsn n hr⟩
-    have h16 : optBytes r.sid = .nil ∨ ∃ b, optBytes r.sid = .bytes b := by
-      cases r.sid with
-      | none => exact Or.inl rfl
-      | some b => exact Or.inr ⟨b, rfl⟩
-    have T := tail _ h8 _ h16
-    cases hu : r.usage with
-    | nil => exact .absent rfl T
-    | cons u us =>
-      rw [hu] at hU
-      exact .present (.slice hU) T
+  cases hu : r.usage <;> cases hr : r.rsn <;> cases r.sid <;> cases e.svcSpec <;> cases hp : e.pdu <;> cases e.registration <;>
+  · simp only [Vals.ofList, nils, List.cons_append, List.nil_append, usageListVal, optBytes, pduVal_none, regVal_none]
+    refine .struct ?_
+    canon_fields
+    all_goals first
+      | exact hN
+      | exact canon_pdu _ (hpdu _ hp)
+      | exact canon_reg
+      | exact .wrap (canon_int64 h200)
+      | exact .wrap (canon_int64 h0)
+      | exact .wrap .str
+      | exact .wrap .octets
+      | exact .ptr (.wrap .octets)
+      | exact .ptr .octets
+      | exact .ptr (.struct (.present (.wrap (.enum h1)) (.present .str .nil)))
+      | exact .wrap (canon_nat hcause)
+      | exact .ptr (.wrap (canon_nat hlsn))
+      | exact .ptr (.wrap (canon_int64 hcid))
+      | exact .ptr (canon_nat (hrsn _ hr))
+      | (rw [hu] at hU; exact .slice hU)
 
 /-! ### the domain of the encoder theorems (C04) -/
 
@@ -155,7 +154,7 @@ theorem valOK_usages (us : List RecUsage) (h : ∀ u ∈ us, UsageInt64 u) : val
     simp [usageVals, usageVal, valsOK, valOK, Vals.ofList, ih (fun x hx => h x (by simp [hx])), h1, valOK_containers u.cs h2]
 
 theorem valOK_record (e : RecEnv) (r : Record) (h : RecInt64 e r) : valOK (recordVal e r) = true := by
-  obtain ⟨hf, hcid, hlsn, hcause, hrsn, hus⟩ := h
+  obtain ⟨hf, hcid, hlsn, hcause, hrsn, hus, hpdu⟩ := h
   have hU := valOK_usages r.usage hus
   unfold int64 at hf hcid hlsn hcause
   have h5 : valOK (usageListVal r.usage) = true := by
@@ -163,13 +162,26 @@ theorem valOK_record (e : RecEnv) (r : Record) (h : RecInt64 e r) : valOK (recor
     | nil => simp [usageListVal, valOK]
     | cons u us => rw [hu] at hU; simp [usageListVal, valOK, hU]
   have h16 : valOK (optBytes r.sid) = true := by cases r.sid <;> simp [optBytes, valOK]
-  have h3 : valOK (optStr r.nf) = true := by cases r.nf <;> simp [optStr, valOK]
+  have h17 : valOK (optBytes e.svcSpec) = true := by cases e.svcSpec <;> simp [optBytes, valOK]
+  have h3 : valOK (nfiVal e r) = true := by
+    unfold nfiVal
+    cases r.nf <;> cases e.v4 <;> cases e.plmn <;> cases e.v6 <;> cases e.fqdn <;>
+    simp [valOK, valsOK, Vals.ofList, nils, optStr, optBytes, ipTextVal, fqdnVal, hf]
+  have h13 : valOK (pduVal e.pdu) = true := by
+    cases hp : e.pdu with
+    | none => simp [pduVal, valOK]
+    | some d =>
+      obtain ⟨a1, a2, a3⟩ := hpdu d hp
+      unfold int64 at a1 a2 a3
+      simp [pduVal, valOK, valsOK, Vals.ofList, nils, a1, a2, a3]
+  have h19 : valOK (regVal e.registration) = true := by
+    cases e.registration <;> simp [regVal, valOK, valsOK, Vals.ofList, nils]
   cases hr : r.rsn with
-  | none => simp [recordVal, chargingRecordVal, valOK, valsOK, Vals.ofList, nils, hf, hcid, hlsn, hcause, h5, h16, h3, hr]
+  | none => simp [recordVal, chargingRecordVal, valOK, valsOK, Vals.ofList, nils, hcid, hlsn, hcause, h5, h16, h3, h13, h17, h19, hr]
   | some n =>
     have h8 := hrsn n hr
     unfold int64 at h8
-    simp [recordVal, chargingRecordVal, valOK, valsOK, Vals.ofList, nils, hf, hcid, hlsn, hcause, h5, h16, h3, hr, h8]
+    simp [recordVal, chargingRecordVal, valOK, valsOK, Vals.ofList, nils, hcid, hlsn, hcause, h5, h16, h3, h13, h17, h19, hr, h8]
 
 theorem bitsOK_containers (cs : List Container) : bitsOKs (containerVals cs) = true := by
   induction cs with
@@ -187,8 +199,16 @@ theorem bitsOK_record (e : RecEnv) (r : Record) : bitsOK (recordVal e r) = true 
     | nil => simp [usageListVal, bitsOK]
     | cons u us => simp [usageListVal, bitsOK, bitsOK_usages]
   have h16 : bitsOK (optBytes r.sid) = true := by cases r.sid <;> simp [optBytes, bitsOK]
-  have h3 : bitsOK (optStr r.nf) = true := by cases r.nf <;> simp [optStr, bitsOK]
-  cases hr : r.rsn <;> simp [recordVal, chargingRecordVal, bitsOK, bitsOKs, Vals.ofList, nils, h5, h16, h3, hr]
+  have h17 : bitsOK (optBytes e.svcSpec) = true := by cases e.svcSpec <;> simp [optBytes, bitsOK]
+  have h3 : bitsOK (nfiVal e r) = true := by
+    unfold nfiVal
+    cases r.nf <;> cases e.v4 <;> cases e.plmn <;> cases e.v6 <;> cases e.fqdn <;>
+    simp [bitsOK, bitsOKs, Vals.ofList, nils, optStr, optBytes, ipTextVal, fqdnVal]
+  have h13 : bitsOK (pduVal e.pdu) = true := by
+    cases e.pdu <;> simp [pduVal, bitsOK, bitsOKs, Vals.ofList, nils]
+  have h19 : bitsOK (regVal e.registration) = true := by
+    cases e.registration <;> simp [regVal, bitsOK, bitsOKs, Vals.ofList, nils]
+  cases hr : r.rsn <;> simp [recordVal, chargingRecordVal, bitsOK, bitsOKs, Vals.ofList, nils, h5, h16, h3, h13, h17, h19, hr]
 
 end Chf.RecordBer
 
@@ -280,15 +300,24 @@ theorem usagesEnc_ok (us : List RecUsage) (h : ∀ u ∈ us, Bytes.ok u.upf) : B
 /-- the strings of the record are octet strings -/
 def RecOctets (e : RecEnv) (r : Record) : Prop :=
   Bytes.ok e.nfId ∧ Bytes.ok e.openTime ∧ Bytes.ok r.subData ∧ (∀ b, r.nf = some b → Bytes.ok b) ∧
-  (∀ b, r.sid = some b → Bytes.ok b) ∧ ∀ u ∈ r.usage, Bytes.ok u.upf
+  (∀ b, r.sid = some b → Bytes.ok b) ∧ (∀ u ∈ r.usage, Bytes.ok u.upf) ∧
+  (∀ b, e.v4 = some b → Bytes.ok b) ∧ (∀ b, e.plmn = some b → Bytes.ok b) ∧ (∀ b, e.v6 = some b → Bytes.ok b) ∧
+  (∀ b, e.fqdn = some b → Bytes.ok b) ∧ (∀ b, e.svcSpec = some b → Bytes.ok b) ∧
+  (∀ d, e.pdu = some d → Bytes.ok d.sd ∧ Bytes.ok d.dnn)
 
 theorem optF_ok (k : Nat) (o : Option Bytes) (hk : k ≤ 30) (h : ∀ b, o = some b → Bytes.ok b) : Bytes.ok (optF 2 k o) := by
   cases o with
   | none => exact ok_nil
   | some b => exact tlv_ok_low 2 false k _ (by decide) hk (h b rfl)
 
+theorem ipEnc_ok (k j : Nat) (o : Option Bytes) (hk : k ≤ 30) (hj : j ≤ 30) (h : ∀ b, o = some b → Bytes.ok b) :
+    Bytes.ok (ipEnc k j o) := by
+  cases o with
+  | none => exact ok_nil
+  | some b => exact tlv_ok_low 2 true k _ (by decide) hk (tlv_ok_low 2 false j _ (by decide) hj (h b rfl))
+
 theorem recordEnc_ok (e : RecEnv) (r : Record) (h : RecOctets e r) : Bytes.ok (recordEnc e r) := by
-  obtain ⟨h1, h2, h3, h4, h5, h6⟩ := h
+  obtain ⟨h1, h2, h3, h4, h5, h6, h7, h8, h9, h10, h11, h12⟩ := h
   unfold recordEnc tlv
   refine ok_append (header_ok_200 _) ?_
   unfold recordContent
@@ -296,17 +325,38 @@ theorem recordEnc_ok (e : RecEnv) (r : Record) (h : RecOctets e r) : Bytes.ok (r
     cases hu : r.usage with
     | nil => exact ok_nil
     | cons u us => rw [hu] at h6; exact tlv_ok_low 2 true 5 _ (by decide) (by decide) (usagesEnc_ok _ h6)
-  have h8 : Bytes.ok (match r.rsn with | some n => intF 8 n | none => []) := by
+  have hrsn : Bytes.ok (match r.rsn with | some n => intF 8 n | none => []) := by
     cases r.rsn with
     | none => exact ok_nil
     | some n => exact intF_ok 8 _ (by decide)
+  have hnfi : Bytes.ok (nfiEnc e r) :=
+    tlv_ok_low 2 true 3 _ (by decide) (by decide)
+      (ok_append (tlv_ok_low 2 false 0 _ (by decide) (by decide) (intBytes_ok _)) (ok_append (optF_ok 1 _ (by decide) h4)
+      (ok_append (ipEnc_ok 2 2 _ (by decide) (by decide) h7) (ok_append (optF_ok 3 _ (by decide) h8)
+      (ok_append (ipEnc_ok 4 3 _ (by decide) (by decide) h9) (ok_append (ipEnc_ok 5 1 _ (by decide) (by decide) h10) ok_nil))))))
+  have hpdu : Bytes.ok (pduEnc e.pdu) := by
+    cases hp : e.pdu with
+    | none => exact ok_nil
+    | some d =>
+      obtain ⟨a1, a2⟩ := h12 d hp
+      exact tlv_ok_low 2 true 13 _ (by decide) (by decide)
+        (ok_append (intF_ok 0 _ (by decide)) (ok_append (intF_ok 6 _ (by decide))
+        (ok_append (tlv_ok_low 2 true 7 _ (by decide) (by decide)
+          (ok_append (intF_ok 0 _ (by decide)) (ok_append (tlv_ok_low 2 false 1 _ (by decide) (by decide) a1) ok_nil)))
+        (ok_append (tlv_ok_low 2 false 13 _ (by decide) (by decide) a2) ok_nil))))
+  have hreg : Bytes.ok (regEnc e.registration) := by
+    unfold regEnc
+    split
+    · exact tlv_ok_low 2 true 19 _ (by decide) (by decide)
+        (ok_append (tlv_ok_low 2 false 0 _ (by decide) (by decide) (intBytes_ok _)) ok_nil)
+    · exact ok_nil
   exact ok_append (intF_ok 0 _ (by decide)) (ok_append (tlv_ok_low 2 false 1 _ (by decide) (by decide) h1)
     (ok_append (tlv_ok_low 2 true 2 _ (by decide) (by decide)
       (ok_append (tlv_ok_low 2 false 0 _ (by decide) (by decide) (intBytes_ok _)) (ok_append (tlv_ok_low 2 false 1 _ (by decide) (by decide) h3) ok_nil)))
-    (ok_append (tlv_ok_low 2 true 3 _ (by decide) (by decide)
-      (ok_append (tlv_ok_low 2 false 0 _ (by decide) (by decide) (intBytes_ok _)) (ok_append (optF_ok 1 _ (by decide) h4) ok_nil)))
+    (ok_append hnfi
     (ok_append hl (ok_append (tlv_ok_low 2 false 6 _ (by decide) (by decide) h2) (ok_append (intF_ok 7 _ (by decide))
-    (ok_append h8 (ok_append (intF_ok 9 _ (by decide)) (ok_append (intF_ok 11 _ (by decide))
-    (ok_append (optF_ok 16 _ (by decide) h5) (ok_append (intF_ok 27 _ (by decide)) ok_nil)))))))))))
+    (ok_append hrsn (ok_append (intF_ok 9 _ (by decide)) (ok_append (intF_ok 11 _ (by decide))
+    (ok_append hpdu (ok_append (optF_ok 16 _ (by decide) h5) (ok_append (optF_ok 17 _ (by decide) h11)
+    (ok_append hreg (ok_append (intF_ok 27 _ (by decide)) ok_nil))))))))))))))
 
 end Chf.RecordBer
